@@ -16,7 +16,7 @@ import (
 	"github.com/alecthomas/participle/v2/lexer"
 )
 
-const vhGenGrammars = 48 // @tier quick=48 thorough=400
+const vhGenGrammars = 48 // @tier quick=48 thorough=200
 const vhGenTokens = 4    // @tier quick=4 thorough=5
 
 var vhAnyType = reflect.TypeOf((*interface{})(nil)).Elem()
